@@ -144,6 +144,134 @@ def read_native(ext, path, n_atoms, precision=3):
     return None
 
 
+def text_blocks(base, path, n_atoms, prec, has_box):
+    """The coordinate text of a file written by mdtraj, cut out by column / line position only: per frame (driver request, raw text, kind)
+    where the request renders the same values through the digit-level Lean model (Model/TextFmt.lean)."""
+    opener = gzip.open if path.endswith(".gz") else open
+    with opener(path, "rt") as fh:
+        lines = fh.read().split("\n")
+    if lines and lines[-1] == "":
+        lines.pop()
+    out = []
+    if base == "mdcrd":
+        per = -(-3 * n_atoms // 10)
+        body = lines[1:]
+        step = per + (1 if has_box else 0)
+        for f in range(0, len(body), step):
+            out.append(("mdcrd", "|".join(body[f:f + per]), body[f + per] if has_box and f + per < len(body) else None))
+    elif base == "rst7":
+        per = -(-n_atoms // 2)
+        out.append(("fixed 12 7", "".join(lines[2:2 + per]), None))
+    elif base == "gro":
+        w = prec + 5
+        step = n_atoms + 3
+        for f in range(0, len(lines), step):
+            out.append(("fixed %d %d" % (w, prec), "".join(l[20:20 + 3 * w] for l in lines[f + 2:f + 2 + n_atoms]), None))
+    elif base == "pdb":
+        cur = []
+        for l in lines:
+            if l.startswith(("ATOM", "HETATM")):
+                cur.append(l[30:54])
+            elif l.startswith("ENDMDL") and cur:
+                out.append(("pdb83", "".join(cur), None)); cur = []
+        if cur:
+            out.append(("pdb83", "".join(cur), None))
+    elif base == "xyz":
+        step = n_atoms + 2
+        for f in range(0, len(lines), step):
+            out.append(("spaced 8 3", "".join(l[len(l.split(" ")[0]):] for l in lines[f + 2:f + 2 + n_atoms]), None))
+    elif base == "lammpstrj":
+        i = 0
+        while i < len(lines):
+            if lines[i].startswith("ITEM: ATOMS"):
+                rows = lines[i + 1:i + 1 + n_atoms]
+                out.append(("spaced 8 3", "".join(l[len(" ".join(l.split(" ")[:2])):] for l in rows), None))
+                i += n_atoms
+            i += 1
+    return out
+
+
+def overflow_stream(ctx, md, scratch, viol):
+    """Field limits: coordinates around the widest value an eight-column field holds (-999.999 / 9999.999 angstrom).  The model says which
+    values fit (`Fits 8 3`, theorem c01_fits_iff); mdcrd must refuse exactly the others (c01_mdcrd_overflow_detected), pdb degrades the
+    decimals but keeps its columns (c01_pdb83_width), the blank-separated formats hold any magnitude (c01_spaced_roundtrip)."""
+    rng = ctx.rng
+    edge = [99.875, 99.9990234375, 100.0, 100.25, 999.875, 999.9990234375, 1000.0, 1000.5, 12.5, 0.25]
+    for k in range(ctx.n(24, 120)):
+        na = rng.choice([1, 2, 3, 4, 11])
+        nf = rng.choice([1, 2])
+        xyz = np.array([[[rng.choice([-1, 1]) * rng.choice(edge) for _ in range(3)] for _ in range(na)] for _ in range(nf)], dtype=np.float32)
+        if rng.random() < 0.5:
+            xyz[:, :, :] = np.where(np.abs(xyz) > 50, np.float32(12.5), xyz)          # half of the cases stay inside every field
+        top = make_top(md, na)
+        t = md.Trajectory(xyz.copy(), top)
+        cell = rng.random() < 0.5
+        if cell:
+            t.unitcell_lengths = np.full((nf, 3), 2500.0, dtype=np.float32); t.unitcell_angles = np.full((nf, 3), 90.0, dtype=np.float32)
+        for ext in ["mdcrd", "pdb", "xyz", "lammpstrj"]:
+            if ext == "lammpstrj" and not cell:
+                continue
+            if ext == "mdcrd" and na == 1 and nf > 1 and not cell:
+                continue                                     # the one-atom ambiguity (known finding) is the main stream's business
+            path = os.path.join(scratch, "o%d.%s" % (k, ext))
+            if os.path.exists(path):
+                os.remove(path)
+            ang = [rat(float(v) * 10) for v in xyz.ravel()]
+            fit = ctx.driver.query(["txt fixed 8 3 " + " ".join(ang)])[0].startswith("F1") if ctx.driver_ok else None
+            if fit is None:
+                return
+            rp = dict(format=ext, n_atoms=na, n_frames=nf, xyz=xyz.tolist(), cell=cell, stream="field-limits", seed=ctx.seed, case=k)
+            ctx.case(None, ("overflow", k, ext)); ctx.count("field-limit cases: " + ext + (" (all fit)" if fit else " (overflow)"))
+            try:
+                t.save(path)
+                raised = None
+            except Exception as e:
+                raised = e
+            if ext == "mdcrd":
+                if fit and raised is not None:
+                    viol("save|raises|mdcrd|fits", "every coordinate fits its eight columns, but saving as .mdcrd raised %s: %s" % (type(raised).__name__, str(raised)[:100]), rp)
+                if not fit and raised is None:
+                    try:
+                        l = md.load(path, top=top)
+                        bad = l.n_frames != nf or np.abs(l.xyz - xyz).max() > 1e-3
+                    except Exception:
+                        bad = False                          # unreadable: loud
+                    if bad:
+                        viol("overflow|silent|mdcrd", "a coordinate wider than the eight-column field was written to .mdcrd without an error and the file reloads with different values", rp)
+                    else:
+                        ctx.broke("correspondence:fits|mdcrd", "case o%d: the model says a field overflows, the writer did not refuse" % k)
+                continue
+            if raised is not None:
+                viol("save|raises|%s|field-limits" % ext, "saving coordinates up to %.3f nm as .%s raised %s: %s" % (float(np.abs(xyz).max()), ext, type(raised).__name__, str(raised)[:100]), rp)
+                continue
+            try:
+                l = md.load(path) if ext == "pdb" else md.load(path, top=top)
+            except Exception as e:
+                viol("load|raises|%s|field-limits" % ext, "a .%s file written by mdtraj with coordinates up to %.3f nm cannot be read back: %s: %s" % (ext, float(np.abs(xyz).max()), type(e).__name__, str(e)[:100]), rp)
+                continue
+            blocks = text_blocks(ext, path, na, 3, cell)
+            kinds = {"pdb": "pdb83", "xyz": "spaced 8 3", "lammpstrj": "spaced 8 3"}
+            if len(blocks) != nf or l.n_frames != nf or l.n_atoms != na:
+                viol("shape|%s|field-limits" % ext, ".%s: %d frames x %d atoms saved, %d blocks in the file, %d x %d loaded" % (ext, nf, na, len(blocks), l.n_frames, l.n_atoms), rp)
+                continue
+            for f, (kind, raw, _) in enumerate(blocks):
+                vals = " ".join(rat(float(v) * 10) for v in xyz[f].ravel())
+                m1, m2 = ctx.driver.query(["txt %s %s" % (kinds[ext], vals), "txtparse %s %s" % ("fixed 8" if ext == "pdb" else "tokens", raw.replace(" ", "_"))])
+                if m1.partition(" ")[2].replace("_", " ") != raw:
+                    ctx.broke("correspondence:text|" + ext, "field-limit case o%d frame %d: the file holds %r, the model renders %r" % (k, f, raw[:60], m1[:60]))
+                if not m2.startswith("ok"):
+                    ctx.broke("correspondence:scan|" + ext, "field-limit case o%d frame %d: the model's reader rejects %r" % (k, f, raw[:60]))
+                    continue
+                pv = np.array([float(Fraction(v)) for v in m2.split()[1:]]) / 10
+                got = l.xyz[f].astype(np.float64).ravel()
+                if len(pv) != len(got) or np.abs(pv - got).max() > 3e-6 * max(1.0, float(np.abs(pv).max())):
+                    ctx.broke("correspondence:scan|" + ext, "field-limit case o%d frame %d: md.load returns %s, the model's reader scans %s" % (k, f, got[:6], pv[:6]))
+                # the property itself: within the format's precision (pdb: the decimals that survive in eight columns)
+                tol = 6e-5 if fit or ext != "pdb" else 6e-3
+                if np.abs(got - xyz[f].astype(np.float64).ravel()).max() > tol * max(1.0, float(np.abs(xyz).max()) / 100):
+                    viol("coords|beyond-precision|%s|field-limits" % ext, ".%s: coordinates %s nm reload as %s" % (ext, xyz[f].ravel()[:6], got[:6]), rp)
+
+
 def run(ctx):
     warnings.filterwarnings("ignore")
     import mdtraj as md
@@ -169,8 +297,15 @@ def run(ctx):
             nf = rng.choice([1, 2, 3, 10])
             mag = rng.choice([0.01, 1.0, 9.0, 90.0])
             xyz = np.array([[[rng.choice([-1, 1]) * rng.uniform(0.001, 1) * mag for _ in range(3)] for _ in range(na)] for _ in range(nf)])
-            xyz = (np.round(xyz * 1024) / 1024).astype(np.float32)
+            xyz = (np.round(xyz * 1024) / 1024 + 0.0).astype(np.float32)          # + 0.0: no negative zeros (a Rat has none)
             time = np.cumsum([rng.choice([0.5, 1.0, 2.25, 10.0]) for _ in range(nf)]).astype(np.float32)
+            tmode = rng.choice(["plain", "plain", "negative-start", "tiny", "huge"])
+            if tmode == "negative-start":                    # equilibration counted backwards: the first stamps are below zero
+                time = (time - np.float32(12.5)).astype(np.float32)
+            elif tmode == "tiny":                            # femtosecond-scale spacing: str() of such a float uses an exponent
+                time = (time * np.float32(2.0 ** -20)).astype(np.float32)
+            elif tmode == "huge":                            # long runs: 2^24 ps and beyond (still exactly representable steps)
+                time = (time * np.float32(2.0 ** 22)).astype(np.float32)
             cellmode = rng.choice(["none", "ortho", "ortho-varying", "tri", "tri-varying"])
             top = make_top(md, na)
             t = md.Trajectory(xyz.copy(), top, time=time.copy())
@@ -191,7 +326,7 @@ def run(ctx):
                 if base == "pdb" and "varying" in cellmode:
                     continue                                  # one CRYST1 record per file: format limit
                 path = os.path.join(scratch, "t%d.%s" % (k, ext))
-                desc = dict(format=ext, n_atoms=na, n_frames=nf, magnitude=mag, cell=cellmode, options={a: (b if not isinstance(b, np.ndarray) else "array") for a, b in opts.items()})
+                desc = dict(format=ext, n_atoms=na, n_frames=nf, magnitude=mag, cell=cellmode, times=tmode, options={a: (b if not isinstance(b, np.ndarray) else "array") for a, b in opts.items()})
                 rp = dict(desc, xyz=xyz.tolist() if na * nf <= 60 else None, time=time.tolist(), lengths=None if cellmode == "none" else t.unitcell_lengths.tolist(),
                           angles=None if cellmode == "none" else t.unitcell_angles.tolist(), seed=ctx.seed, case=k)
                 for q in os.listdir(scratch):
@@ -230,7 +365,7 @@ def run(ctx):
                             l = md.load(path) if ext in SELF_TOPOLOGY else md.load(path, top=top)
                         native = read_native(ext, path, na, prec)
                 except Exception as e:
-                    viol("load|raises|%s|%s" % (base, "one-atom" if na == 1 else "general"), "a .%s file written by mdtraj (%d frames x %d atoms, |x| up to %g nm, cell %s) cannot be read back: %s: %s" % (ext, nf, na, mag, cellmode, type(e).__name__, str(e)[:200]), rp)
+                    viol("load|raises|%s|%s%s" % (base, "one-atom" if na == 1 else "general", "" if tmode == "plain" or base != "gro" else "|times-" + tmode), "a .%s file written by mdtraj (%d frames x %d atoms, |x| up to %g nm, cell %s) cannot be read back: %s: %s" % (ext, nf, na, mag, cellmode, type(e).__name__, str(e)[:200]), rp)
                     continue
                 ctx.count("save/load pairs"); ctx.count("format:" + base)
                 ctx.case(desc if len(ctx.samples) < 5 else None, (k, ext))
@@ -240,10 +375,29 @@ def run(ctx):
                     continue
                 reqs.append("fmtq %s %d %d %s" % (base, prec, na, " ".join(rat(x) for x in xyz.ravel())))
                 meta.append(("coords", k, ext, (l.xyz.astype(np.float64).ravel(), native, xyz.astype(np.float64).ravel(), mag), rp))
+                # ---- digit level: the file's coordinate text vs the Lean rendering of the same values; the Lean scanner on the file's text
+                if base in ("mdcrd", "rst7", "gro", "pdb", "xyz", "lammpstrj") and na * nf <= 400:
+                    unit = 1 if base == "gro" else 10
+                    files_ = [os.path.join(scratch, q) for q in files] if (base == "rst7" and nf > 1) else [path]
+                    blocks = []
+                    for q in files_:
+                        blocks += text_blocks(base, q, na, prec, cellmode != "none")
+                    if len(blocks) != nf:
+                        viol("native-layout|frames|%s" % base, "the .%s file holds %d coordinate blocks for %d frames" % (ext, len(blocks), nf), rp)
+                    else:
+                        for f, (kind, raw, boxline) in enumerate(blocks):
+                            vals = " ".join(rat(float(v) * unit) for v in xyz[f].ravel())
+                            reqs.append("txt %s %s" % (kind, vals)); meta.append(("txt", k, ext, (raw, f), rp))
+                            enc = raw.replace(" ", "_")
+                            if enc:
+                                pk = {"mdcrd": "mdcrd", "pdb83": "fixed 8", "spaced 8 3": "tokens"}.get(kind, "fixed %d" % (prec + 5 if base == "gro" else 12))
+                                reqs.append("txtparse %s %s" % (pk, enc)); meta.append(("txtparse", k, ext, (l.xyz[f].astype(np.float64).ravel() * unit, f, xyz[f].astype(np.float64).ravel() * unit), rp))
+                            if boxline is not None:
+                                reqs.append("txt box %s" % " ".join(rat(float(v) * 10) for v in t.unitcell_lengths[f])); meta.append(("txt", k, ext, (boxline, f), rp))
                 # ---- time
                 stores_time = base in ("h5", "xtc", "trr", "nc", "gro", "dtr", "rst7", "ncrst")
                 if stores_time and np.abs(l.time - time).max() > 1e-5 * max(1.0, float(np.abs(time).max())):
-                    viol("time|%s|frames-%s" % (base, "1" if nf == 1 else "many"), ".%s stores time stamps but reloads %s for %s" % (ext, l.time[:4], time[:4]), rp)
+                    viol("time|%s|frames-%s%s" % (base, "1" if nf == 1 else "many", "" if tmode == "plain" else "|times-" + tmode), ".%s stores time stamps but reloads %s for %s" % (ext, l.time[:4], time[:4]), rp)
                 if native and stores_time and base in ("nc", "ncrst", "rst7", "gro"):
                     tn = [fr[2] for fr in native]
                     if any(x is None for x in tn) or np.abs(np.array(tn, dtype=np.float64) - time).max() > 1e-5 * max(1.0, float(np.abs(time).max())):
@@ -276,6 +430,7 @@ def run(ctx):
                                     viol("native-cell-angles|%s" % base, "the cell angles in the .%s file are %s for %s" % (ext, nang, t.unitcell_angles[f]), rp)
                                     break
 
+        overflow_stream(ctx, md, scratch, viol)
         model = ctx.driver.query(reqs) if ctx.driver_ok and reqs else [None] * len(reqs)
         for (what, k, ext, data, rp), m in zip(meta, model):
             if m is None:
@@ -289,6 +444,25 @@ def run(ctx):
                 want = [stem + "." + s for s in m.split(",")]
                 if files != want:
                     ctx.broke("correspondence:restart-names", "case %d: files %s, the model names %s" % (k, files[:4], want[:4]))
+                continue
+            if what == "txt":
+                raw, f = data
+                ctx.count("text blocks compared byte for byte with the Lean rendering")
+                fits, _, text = m.partition(" ")
+                if text.replace("_", " ") != raw:
+                    a, b = text.replace("_", " "), raw
+                    i = next((j for j in range(min(len(a), len(b))) if a[j] != b[j]), min(len(a), len(b)))
+                    ctx.broke("correspondence:text|" + base, "case %d .%s frame %d: the file holds %r where the digit-level model renders %r (first difference at column %d of the block)" % (k, ext, f, b[max(0, i - 12):i + 12], a[max(0, i - 12):i + 12], i))
+                continue
+            if what == "txtparse":
+                got, f, x = data
+                ctx.count("text blocks scanned by the Lean reader")
+                if not m.startswith("ok"):
+                    ctx.broke("correspondence:scan|" + base, "case %d .%s frame %d: the model's reader rejects the coordinate text mdtraj wrote (%s)" % (k, ext, f, m))
+                    continue
+                pv = np.array([float(Fraction(v)) for v in m.split()[1:]])
+                if len(pv) != len(got) or np.any(np.abs(pv - got) > 3e-6 * np.maximum(1.0, np.abs(x))):
+                    ctx.broke("correspondence:scan|" + base, "case %d .%s frame %d: md.load returns %s where the model's reader scans %s from the same text" % (k, ext, f, got[:6], pv[:6]))
                 continue
             got, native, x, mag = data
             ctx.count("coordinate sets compared with the model")
